@@ -220,7 +220,15 @@ def judge(ctx: Ctx, obs, rec, group):
                 ctx.violation({"clause": v, "cause": c, "cause_event": m.group(1) if m else c.split(" ", 1)[-1]}, text, sc)
         elif role:
             side = "r" if role == "requestor" else "a"
-            ctx.violation({"clause": v, "cause": "none", "role": role, "terminals": o["term_" + side], "how": o["how_" + side]}, text, sc)
+            sig = {"clause": v, "cause": "none", "role": role, "terminals": o["term_" + side], "how": o["how_" + side]}
+            if v == "C27_EstablishedBeforeEnd":
+                # who notified what: an abort()/release() on another thread that slips in between `is_established = True` and the
+                # EVT_ESTABLISHED notification (the open finding of unsynchronised outcome flags) vs. one thread notifying out of order
+                evs = by.get(o[side + "id"], [])
+                te = next((e["th"] for e in evs if e["ev"] == "EVT_ESTABLISHED"), None)
+                tt = next((e["th"] for e in evs if e["ev"] in ("EVT_ABORTED", "EVT_RELEASED")), None)
+                sig["threads"] = "different" if te and tt and te != tt else "same"
+            ctx.violation(sig, text, sc)
         else:
             ctx.violation({"clause": v, "cause": "none", "req": o["term_r"], "acc": o["term_a"]}, text, sc)
 
